@@ -54,7 +54,7 @@ func init() {
 			"probe_ioerr_runs", "probe_ioerr_read_crossed_failure", "probe_ioerr_constructor_failed", "probe_bitmap_runs", "probe_bitmap_full_buffer",
 			"probe_parallel_runs", "probe_parallel_task_switches", "probe_big_blob", "probe_huge_readbytes", "probe_seek_outside", "probe_stale_size_overrun", "probe_binaryreader_passthrough", "probe_bitmap_recycled_buffer", "probe_bitmap_large",
 		},
-		rule: "one run = one seeded history: typed writes through the real BinaryWriter (both byte orders, optional prefix), truncation at a tape-chosen byte, then typed reads / ReadBytes / Read / ReadAt / Seek / Clone on the real BinaryReader over one of 11 constructors (memory, reader with Bytes(), simulated ReadSeeker with and without size, simulated ReaderAt, ReadAll path, streaming reader, real file by handle and by path, mmap by path and by handle) with short reads and both EOF styles drawn per Read call; separate families: injected non-EOF failure at byte F, bitmap writer/reader, and 2-4 parallel ReadAt/Clone callers interleaved at every Seek/Read/ReadAt of the shared source by the seeded scheduler; non-trivial = truncated, or a short read / EOF-with-data / exact-fit EOF fired, or a failure was injected, or a bitmap run with >=1 bit, or a scheduled run with a contended lock or >=3 task switches; distinct = hash of (backend, byte order, operation-kind sequence, whence values, schedule)",
+		rule: "one run = one seeded history: typed writes through the real BinaryWriter (both byte orders, optional prefix), truncation at a tape-chosen byte, then typed reads / ReadBytes / Read / ReadAt / Seek / Clone on the real BinaryReader over one of 15 constructors (memory, reader with Bytes(), simulated ReadSeeker with and without size, simulated ReaderAt, ReadAll path, streaming reader, real file by handle and by path, mmap by path and by handle, bytes.Reader, strings.Reader, io.SectionReader, os.File through the generic constructor; sometimes the resulting *BinaryReader is handed to the constructor again) with short reads and both EOF styles drawn per Read call; separate families: injected non-EOF failure at byte F, torn source (announced size larger than the data), bitmap writer/reader (incl. recycled buffers and >2^16 bits), and 2-4 parallel ReadAt/Clone callers interleaved at every Seek/Read/ReadAt of the shared source by the seeded scheduler; non-trivial = truncated, or a short read / EOF-with-data / exact-fit EOF fired, or a failure was injected, or a bitmap run with >=1 bit, or a scheduled run with a contended lock or >=3 task switches; distinct = hash of (backend, byte order, operation-kind sequence, whence values, schedule)",
 		realStub: map[string][]string{
 			"real": append([]string{"parse.BinaryWriter, BinaryReader (+Clone), all five IBinaryReader backends incl. the sync.Mutex of the seeker backend, BitmapWriter/Reader", "the kernel's file and mmap implementation for the file backends"}, realLib...),
 			"stub": {"faultio.Reader / ReadSeeker / ReaderAt (simulated sources)", "caller tasks and the baton scheduler", "encoding/binary + bytes.Reader.Seek + testing/iotest.TestReader (reference models)"},
@@ -76,7 +76,7 @@ func init() {
 			"wl_Position/Error", "wl_Input+buffer.Lexer", "wl_StreamLexer", "wl_Indenter", "wl_BinaryWriter/Reader", "wl_buffer.Writer/Reader+misc", "wl_js.AST strings",
 			"probe_identical_inputs", "probe_focused_runs", "probe_all_identical_runs", "probe_deep_input_runs", "probe_decoy_before_real", "probe_fresh_process_compared", "probe_sched_task_switches", "probe_scheduled_runs", "probe_whole_run_in_fresh_process",
 		},
-		rule: "one run = 2-6 caller tasks, each a deterministic workload (one of 16 entry-point families) over a private instance and private input from an embedded corpus, spliced/mutated/truncated from the tape, half of the runs with two tasks on byte-identical input; executed solo in order, interleaved one-at-a-time by the seeded baton scheduler (yield before every public call and inside every simulated reader/writer/visitor), solo again in reverse order, and for a sample in a fresh process; half of the workers run the same runs under the Go race detector, to which the scheduler is invisible; non-trivial = at least two tasks took at least two turns each; distinct = hash of (multiset of workload kinds, schedule projected on (task, yield site))",
+		rule: "one run = 2-6 caller tasks, each a deterministic workload (one of 16 entry-point families) over a private instance and private input from an embedded corpus plus the string literals of the library's own test files, spliced/mutated/truncated/enlarged from the tape (runes of all UTF-8 widths inserted, empty input, several kilobytes, nesting up to the parser limits), half of the runs with two tasks on byte-identical input, a third focused on one family; executed solo in order, interleaved one-at-a-time by the seeded baton scheduler (yield before every public call and inside every simulated reader/writer/visitor), solo again in reverse order (interleaved and second solo phase optionally preceded by a decoy input in the same reused caller buffer), and for samples in fresh processes (single workloads, and whole runs with the interleaved phase first, plain and race build); half of the workers run the same runs under the Go race detector, to which the scheduler is invisible; non-trivial = at least two tasks took at least two turns each; distinct = hash of (multiset of workload kinds, schedule projected on (task, yield site))",
 		realStub: map[string][]string{
 			"real": append([]string{"every package of the library: css, html, xml, json, js (lexer, parser, printer, Walk), strconv, buffer, parse helpers, Input, StreamLexer, BinaryReader/Writer, Indenter, Position/Error", "Go race detector"}, realLib...),
 			"stub": {"caller tasks (workloads)", "baton scheduler", "yielding reader / writer / visitor"},
